@@ -251,6 +251,9 @@ static inline uint32_t verif_stub_find_closer_entry(ht_slot_t *table, uint32_t f
 {
 	const struct ht_table *T = (const struct ht_table *)table;
 	__CPROVER_assert(f < HT_N, "C17.putd.closer-is-called-with-a-slot-index");
+	/* put asks for a displacement only while the hole is out of reach of the home (distance modulo N >= hop range): a hole
+	 * within reach must be used, not moved on (and never lead to a refusal) */
+	__CPROVER_assert(HT_WRAP(f - HT_PIN_HOME) >= 32, "C17.putd.displacement-continues-only-while-the-hole-is-out-of-reach");
 	if (!movable_exists(T, f)) { verif_stuck = 1; return 0xffffffff; }
 	__CPROVER_assume(verif_moves < HT_MAXMOVES);
 	verif_moves++;
